@@ -1018,3 +1018,21 @@ Proof.
   intros (Hs & Hc & Bc & _). split; [lia|].
   eapply Forall_impl; [|exact Hs]. intros x (Xw & _). lia.
 Qed.
+
+(** the ledger's write pass is the model's [write_pass_from] (the function the
+    correspondence run ties to the real converter) with the ghost fields erased *)
+Definition erase (x : mstream) : stream := mkstream (ms_id x) (ms_w x) (ms_body x).
+
+Lemma mpass_erases fuel mf : forall l cw,
+  write_pass_from fuel cw mf (map erase l) =
+  match mpass fuel cw mf l with
+  | Some (l', cw', out) => Some (map erase l', cw', out)
+  | None => None
+  end.
+Proof.
+  intros l. induction l as [|x r IH]; intros cw; cbn [map mpass write_pass_from]; [reflexivity|].
+  cbn [erase swin body sid].
+  destruct (prepare fuel false (Z.min (ms_w x) cw) mf (ms_body x) []) as [[[frames lft] w']|]; [|reflexivity].
+  rewrite IH.
+  destruct (mpass fuel (saturating_sub cw (Z.min (ms_w x) cw - w')) mf r) as [[[r' cw2] out2]|]; reflexivity.
+Qed.
